@@ -34,6 +34,15 @@ PROPS = {
     "C02": dict(quick=4000, thorough=120000, events=None, runs_thorough=12),
     "C03": dict(quick=4000, thorough=120000, events=None, runs_thorough=12),
     "C15": dict(quick=4000, thorough=120000, events=None, runs_thorough=12),
+    "C04": dict(quick=6000, thorough=160000, events=None, runs_thorough=12),
+    "C05": dict(quick=6000, thorough=160000, events=None, runs_thorough=12),
+    "C08": dict(quick=6000, thorough=160000, events=None, runs_thorough=12),
+    "C13": dict(quick=6000, thorough=160000, events=None, runs_thorough=12),
+    "C14": dict(quick=6000, thorough=160000, events=None, runs_thorough=12),
+    "C17": dict(quick=6000, thorough=160000, events=None, runs_thorough=12),
+    "C18": dict(quick=6000, thorough=160000, events=None, runs_thorough=12),
+    "C19": dict(quick=6000, thorough=160000, events=None, runs_thorough=12),
+    "C20": dict(quick=6000, thorough=160000, events=None, runs_thorough=12),
     "C11": dict(quick=5000, thorough=150000, events=None, runs_thorough=12),
     "C12": dict(quick=5000, thorough=150000, events=None, runs_thorough=12),
     "C16": dict(quick=5000, thorough=150000, events=None, runs_thorough=12),
@@ -221,16 +230,14 @@ def replay_ops(prop, opsfile, tag):
     d = os.path.join(WORK, f"replay_{tag}")
     os.makedirs(d, exist_ok=True)
     imp, mod = os.path.join(d, "impl.txt"), os.path.join(d, "model.txt")
-    rc, out = sh([os.path.join(HARNESS, "target", "debug", "harness"), "run", opsfile], timeout=3600)
-    if rc != 0:
-        raise RuntimeError("harness run failed: " + out[-2000:])
-    with open(imp, "w") as f:
-        f.write(out)
     ops_clean = os.path.join(d, "ops.txt")
     with open(opsfile) as f, open(ops_clean, "w") as g:
         for l in f:
             if l.strip() and not l.startswith("#"):
                 g.write(l)
+    rc, out = sh([os.path.join(HARNESS, "target", "debug", "harness"), "run", ops_clean, imp], timeout=3600)
+    if rc != 0:
+        raise RuntimeError("harness run failed: " + out[-2000:])
     return run_driver(prop, ops_clean, imp, mod)
 
 
